@@ -985,6 +985,19 @@ pub fn gen_load_enum(prop: &'static str, seed: u64, b: u64, f: u64, trunc_only: 
         }
         tries += 1;
     };
+    // The Tundra writer emits a position record only for long blank runs, so most base files hold none and no
+    // prefix ends inside one (C02-11A was caught by 1-4 runs per batch only). Every Tundra base file of the
+    // truncation sweep gets a near one in front, so that each cut point inside the 9-byte record is a run.
+    if trunc_only && kind == "tnd" && bytes.len() >= 9 && &bytes[1..9] == b"TUNDRA24" {
+        let y = rng.below(4) as u32;
+        let x = rng.below(12) as u32;
+        let mut rec = vec![1u8];
+        rec.extend(y.to_be_bytes());
+        rec.extend(x.to_be_bytes());
+        rec.push(b'A');
+        bytes.splice(9..9, rec);
+        t.labels.push(format!("tnd_near_jump y={y} x={x}"));
+    }
     bytes.truncate(ENUM_MAX_LEN);
     let ext = name.rsplit_once('.').map_or("none", |x| x.1).to_string();
     let fault = if trunc_only {
